@@ -157,12 +157,19 @@ def _expected_trigger(cls, args, kw):
     return kw.get('activate', True)
 
 
+TARGET = None      # a caller-owned Report the constructions of this execution are addressed to (None: the global one)
+
+
 def do_construct(ctx, idx, hist, delayed):
     """Perform one construction and check the C20 clauses for it."""
     cls, args, kw = CASES[idx]
     kw = {k: (dict(v) if isinstance(v, dict) else v) for k, v in kw.items()}
     tag = {'class': cls.__name__, 'kw': sorted(kw)}
     report = MAIN_REPORT
+    if TARGET is not None:
+        report = TARGET
+        kw['report'] = TARGET
+        tag['report'] = 'own'
     fmt = report.format
     n_act, n_ign = len(report.feedback), len(report.ignored_feedback)
     fb = exc = None
@@ -208,11 +215,14 @@ def check_recorded(ctx, cls, args, kw, fb, exc, new_act, new_ign, fmt, hist, tag
                      status=f._status, truth=bool(f))
         ctx.outcome('error-recorded')
         return
+    rep = TARGET if TARGET is not None else MAIN_REPORT
     cnt = sum(1 for f in new_act if f is fb) + sum(1 for f in new_ign if f is fb)
-    cnt_all = sum(1 for f in MAIN_REPORT.feedback if f is fb) + sum(1 for f in MAIN_REPORT.ignored_feedback if f is fb)
+    cnt_all = sum(1 for f in rep.feedback if f is fb) + sum(1 for f in rep.ignored_feedback if f is fb)
     if cnt != 1 or cnt_all != 1:
         ctx.fail({'symptom': 'feedback not recorded exactly once', **tag}, history=hist, count=cnt_all)
-    if (any(f is fb for f in MAIN_REPORT.feedback)) != bool(fb):
+    if rep is not MAIN_REPORT and any(f is fb for f in MAIN_REPORT.feedback + MAIN_REPORT.ignored_feedback):
+        ctx.fail({'symptom': 'feedback addressed to another report was recorded on the global report', **tag}, history=hist)
+    if (any(f is fb for f in rep.feedback)) != bool(fb):
         ctx.fail({'symptom': 'list membership disagrees with truth value', **tag}, history=hist)
     trig = _expected_trigger(cls, args, kw)
     if bool(fb) != bool(trig):
@@ -275,13 +285,19 @@ def _reset_everything():
 def make_single():
     """Every (class, keyword mix) x formatter, one construction each."""
     def body(ctx):
+        global TARGET
         fi = ctx.choose(3, 'formatter')
         idx = ctx.choose(len(CASES), 'case')
+        own = ctx.choose(2, 'report')          # the global report | a Report of the caller's own passed as report=
         _reset_everything()
+        TARGET = None
+        if own:
+            from pedal.core.report import Report
+            TARGET = Report()
         if fi == 1:
-            cmds.set_formatter(HtmlFormatter)
+            cmds.set_formatter(HtmlFormatter, **({'report': TARGET} if own else {}))
         elif fi == 2:
-            cmds.set_formatter(MyFmt)
+            cmds.set_formatter(MyFmt, **({'report': TARGET} if own else {}))
         cls, args, kw = CASES[idx]
         import inspect
         try:
@@ -289,23 +305,28 @@ def make_single():
         except TypeError:
             ctx.info['filtered_by_signature'] += 1
             return
-        hist = [('formatter', ['default', 'html', 'my'][fi]), ('construct', cls.__name__, repr(args), repr(kw))]
+        hist = [('report', 'own' if own else 'global'), ('formatter', ['default', 'html', 'my'][fi]),
+                ('construct', cls.__name__, repr(args), repr(kw))]
         ctx.observe(repr(hist))
         ctx.set_sample(hist)
         if fi or not _expected_trigger(cls, args, kw):
             ctx.mark_nontrivial(repr(hist))
         delayed = []
-        do_construct(ctx, idx, hist, delayed)
-        if delayed:
-            run_delayed(ctx, delayed, hist)
+        try:
+            do_construct(ctx, idx, hist, delayed)
+            if delayed:
+                run_delayed(ctx, delayed, hist)
+        finally:
+            TARGET = None
     return body
 
 
 def run_delayed(ctx, delayed, hist):
     while delayed:
         fb, cls, args, kw = delayed.pop(0)
-        fmt = MAIN_REPORT.format
-        n_act, n_ign = len(MAIN_REPORT.feedback), len(MAIN_REPORT.ignored_feedback)
+        rep = TARGET if TARGET is not None else MAIN_REPORT
+        fmt = rep.format
+        n_act, n_ign = len(rep.feedback), len(rep.ignored_feedback)
         exc = None
         ctx.step(('_handle_condition', cls.__name__))
         try:
@@ -314,7 +335,7 @@ def run_delayed(ctx, delayed, hist):
             exc = e
         kw2 = {k: v for k, v in kw.items() if k != 'delay_condition'}
         check_recorded(ctx, cls, args, kw2, fb if exc is None else None, exc,
-                       MAIN_REPORT.feedback[n_act:], MAIN_REPORT.ignored_feedback[n_ign:], fmt, hist,
+                       rep.feedback[n_act:], rep.ignored_feedback[n_ign:], fmt, hist,
                        {'class': cls.__name__, 'kw': sorted(kw), 'delayed': True})
 
 
